@@ -253,6 +253,7 @@ def sequential_history(ctx, rng, kind):
         trace = []
         case = {"kind": "seq", "cache": kind, "trace": trace}
         gets = hits = 0
+        kept_snapshots = []  # (snapshot object, (hits, misses) when it was taken): a snapshot does not move afterwards
         for step in range(rng.randint(5, 60)):
             if rng.random() < 0.25:
                 dt = rng.choice((0.0, 0.4, 0.5, 1.0, 4.5, 5.0, 30.0, 301.0))
@@ -275,6 +276,13 @@ def sequential_history(ctx, rng, kind):
                     if answers[got].expiration <= clock.now:
                         ctx.violation(f"stale-answer-returned:{kind}", f"uid {got} expired at {answers[got].expiration}, now {clock.now}", case)
                         return
+            if op[0] == "snapshot":
+                snap = cache.get_statistics_snapshot()
+                kept_snapshots.append((snap, (snap.hits, snap.misses)))
+            for snap, was in kept_snapshots:
+                if (snap.hits, snap.misses) != was:
+                    ctx.violation(f"statistics-snapshot-changed-after-it-was-taken:{kind}", f"taken at {was}, now reads {(snap.hits, snap.misses)} after {op[0]}", case)
+                    return
             if got != want:
                 what = "stale-or-wrong-answer" if op[0] == "get" else op[0]
                 ctx.violation(f"cache-differs-from-model:{kind}:{what}", f"step {step} {op[0]}: library {got!r} model {want!r}", case)
